@@ -209,6 +209,26 @@ def status_rules(rep, prog):
                     "status() folds outcodes with non-bitwise operators %s: the two-plane evaluation does not generalise" % sorted(ops), config=cfg)
 
 
+def must_clear_param(prog, body, n):
+    """Every return of `body` is preceded by Vec::clear(param n) with no later append to it."""
+    bsl = T.Slicer(body)
+    cl = [bi for bi, t in body.calls(lambda c: facts.callee_matches(c, "Vec::<T, A>::clear"))
+          if T.strip(bsl.operand(t["args"][0]), refs=True) == ("param", n)]
+    if not cl:
+        return False
+    rets = G.return_blocks(body)
+    if any(r in body.reachable(0, removed_blocks=set(cl), unwind=False) for r in rets):
+        return False
+    # nothing refills it after the clear
+    for c in cl:
+        after = body.reachable_from_succs(c, unwind=False)
+        for bi, t in body.calls(lambda cc: facts.callee_matches(cc, "Vec::<T, A>::push", "Extend::extend", "Vec::<T, A>::append", "core::mem::swap")):
+            if bi in after and any(T.strip(bsl.operand(a), refs=True) == ("param", n) for a in t["args"]):
+                if not any(x in body.reachable(bi, unwind=False) for x in cl if x != c and x != bi):
+                    return False
+    return True
+
+
 def clip_loop_rules(rep, prog):
     cfg = prog.config
     b = prog.body(CLIP)
@@ -274,18 +294,27 @@ def clip_loop_rules(rep, prog):
     pc = [(bi, t) for bi, t in b.calls(lambda c: facts.callee_matches(c, "render::clip::clip_simple_polygon"))]
     rep.floor("C03.D2.call", len(pc), 1, "call to clip_simple_polygon")
     for bi, t in pc:
-        vin = T.strip(sl.operand(t["args"][1]), refs=True)
-        vout = T.strip(sl.operand(t["args"][2]), refs=True)
+        vin = T.strip(sl.operand(t["args"][1]), sites=False, refs=True)
+        vout = T.strip(sl.operand(t["args"][2]), sites=False, refs=True)
         fills = [(bj, u) for bj, u in b.calls(lambda c: facts.callee_matches(c, "Extend::extend", "Vec::<T, A>::push", "extend_from_slice"))
-                 if T.strip(sl.operand(u["args"][0]), refs=True) == vin]
+                 if T.strip(sl.operand(u["args"][0]), sites=False, refs=True) == vin]
 
         def clears(v):
             res = []
             for bj, u in b.calls(lambda c: facts.callee_matches(c, "Vec::<T, A>::clear", "Vec::<T, A>::truncate", "Vec::<T, A>::drain")):
-                if T.strip(sl.operand(u["args"][0]), refs=True) == v:
+                if T.strip(sl.operand(u["args"][0]), sites=False, refs=True) == v:
                     if facts.callee_matches(u["callee"], "truncate") and sl.operand(u["args"][1]) != ("const", "usize", 0):
                         continue
                     res.append(bj)
+            # wrapper summary: a local callee that clears the vector it is handed on ALL its paths
+            for bj, u in b.calls():
+                cal = u.get("callee") or {}
+                tb = prog.bodies.get(cal.get("path", ""))
+                if tb is None or tb.kind != "Fn" and tb.kind != "AssocFn":
+                    continue
+                for ai, a in enumerate(u["args"]):
+                    if T.strip(sl.operand(a), sites=False, refs=True) == v and must_clear_param(prog, tb, ai + 1):
+                        res.append(bj)
             return res
         cin, cout = clears(vin), clears(vout)
         for name, cl in (("verts_in", cin), ("verts_out", cout)):
